@@ -144,3 +144,276 @@ PLAN = {
                 assumptions=["value space of blocks is sampled, not enumerated (pure-input quantifier)"]),
     "C18": dict(external="c18check"),
 }
+
+# reach probes that must be non-zero in the thorough tier (a probe stuck at zero means the workload
+# or fault mix must change); measured names, see DESIGN.md Appendix B
+EXPECT = {
+ "C01": [
+  "empty_write",
+  "final_block_1",
+  "final_block_le_2order",
+  "write_ended_inside_pcm_frame"
+ ],
+ "C02": [
+  "assign_independent",
+  "assign_left_side",
+  "assign_mid_side",
+  "assign_side_right",
+  "bps_streaminfo",
+  "bs_16bit",
+  "bs_8bit",
+  "bs_common",
+  "c16_parameter_change_between_frames",
+  "empty_write",
+  "escaped_partition",
+  "final_block_1",
+  "final_block_le_2order",
+  "partition_order_ge3",
+  "rate_common",
+  "rate_dahz",
+  "rate_hz",
+  "rate_khz",
+  "rate_streaminfo",
+  "rice2",
+  "sub_constant",
+  "sub_fixed0",
+  "sub_fixed1",
+  "sub_fixed2",
+  "sub_fixed3",
+  "sub_fixed4",
+  "sub_lpc_13_32",
+  "sub_lpc_1_4",
+  "sub_lpc_5_12",
+  "sub_verbatim",
+  "wasted_bits",
+  "write_ended_inside_pcm_frame",
+  "zero_width_partition"
+ ],
+ "C04": [
+  "catalogue_entry",
+  "dmg_double_flip",
+  "dmg_fixture_file",
+  "dmg_flip_with_checksums_repaired",
+  "dmg_zero_sector",
+  "flip_in_blocking_bit",
+  "flip_in_blocksize_code",
+  "flip_in_channel_code",
+  "flip_in_coded_number_or_ext",
+  "flip_in_coding_method",
+  "flip_in_crc16",
+  "flip_in_crc8",
+  "flip_in_depth_code",
+  "flip_in_lpc_precision_or_shift",
+  "flip_in_metadata",
+  "flip_in_partition_order",
+  "flip_in_rate_code",
+  "flip_in_reserved_bit",
+  "flip_in_rice_parameter",
+  "flip_in_subframe_body",
+  "flip_in_subframe_header",
+  "flip_in_sync",
+  "trunc_in_frame_footer",
+  "trunc_in_frame_header",
+  "trunc_in_metadata",
+  "trunc_in_subframe",
+  "trunc_on_frame_boundary"
+ ],
+ "C05": [
+  "c05_crc_collision_frame_accepted_by_both",
+  "c05_md5_mismatch_reported",
+  "catalogue_entry",
+  "dmg_fixture_file",
+  "flip_in_blocking_bit",
+  "flip_in_blocksize_code",
+  "flip_in_channel_code",
+  "flip_in_coded_number_or_ext",
+  "flip_in_coding_method",
+  "flip_in_crc16",
+  "flip_in_crc8",
+  "flip_in_depth_code",
+  "flip_in_lpc_precision_or_shift",
+  "flip_in_metadata",
+  "flip_in_partition_order",
+  "flip_in_rate_code",
+  "flip_in_reserved_bit",
+  "flip_in_rice_parameter",
+  "flip_in_subframe_body",
+  "flip_in_subframe_header",
+  "flip_in_sync",
+  "trunc_in_frame_footer",
+  "trunc_in_frame_header",
+  "trunc_in_metadata",
+  "trunc_in_subframe",
+  "trunc_on_frame_boundary"
+ ],
+ "C06": [
+  "c06_current_forward",
+  "c06_current_negative",
+  "c06_seek_after_eos",
+  "c06_seek_beyond_end",
+  "c06_seek_frame_boundary",
+  "c06_seek_from_end",
+  "c06_seek_mid_frame",
+  "c06_seek_mid_pcm_frame",
+  "c06_table_first_point_after_start",
+  "c06_table_only_placeholders",
+  "c06_table_with_placeholders",
+  "c07_call_after_eos",
+  "c07_consume_0",
+  "c07_consume_all",
+  "c07_consume_partial"
+ ],
+ "C07": [
+  "c07_call_after_eos",
+  "c07_consume_0",
+  "c07_consume_all",
+  "c07_consume_partial"
+ ],
+ "C08": [
+  "c08_only_partial_frame_after_whole_blocks",
+  "c08_trailing_partial_frame",
+  "c08_two_way_sweep",
+  "c08_variant_with_faults",
+  "empty_write",
+  "final_block_1",
+  "final_block_le_2order",
+  "write_ended_inside_pcm_frame"
+ ],
+ "C09": [
+  "c09_more_frames_than_max_points",
+  "c09_no_padding",
+  "c09_no_room_for_table",
+  "c09_nonzero_offset",
+  "c09_prefinalize_has_frames",
+  "c09_table_carved_from_padding",
+  "c09_table_prereserved",
+  "empty_write",
+  "final_block_1",
+  "final_block_le_2order",
+  "write_ended_inside_pcm_frame"
+ ],
+ "C10": [
+  "c10_24bit_limit_crossed",
+  "c10_delta_above_fit",
+  "c10_delta_below_fit",
+  "c10_delta_exact_fit",
+  "c10_delta_one_over",
+  "c10_delta_one_short",
+  "c10_in_place",
+  "c10_metadata_larger_than_8k",
+  "c10_no_padding",
+  "c10_rebuild_taken",
+  "c10_refused_or_failed_edit",
+  "c10_several_padding_blocks"
+ ],
+ "C11": [
+  "c11_flipped_metadata_still_accepted",
+  "c11_list_refused",
+  "c11_roundtrip_ok"
+ ],
+ "C13": [
+  "c13_disk_full_fired",
+  "c13_eintr_placed",
+  "c13_error_from_fired",
+  "c13_error_once_fired",
+  "c13_metadata_larger_than_8k",
+  "c13_ok_returned_after_fault_fired",
+  "c13_read_unknown_total",
+  "c13_rebuilt_closure_failure_propagated",
+  "c13_short_transfer_placed",
+  "c13_write_zero_fired",
+  "empty_write",
+  "final_block_1",
+  "final_block_le_2order",
+  "write_ended_inside_pcm_frame"
+ ],
+ "C14": [
+  "c14_byte_granularity",
+  "c14_crash_in_metadata",
+  "c14_crash_inside_frame",
+  "c14_crash_on_frame_boundary",
+  "c14_declared",
+  "c14_undeclared",
+  "empty_write",
+  "final_block_1",
+  "final_block_le_2order",
+  "write_ended_inside_pcm_frame"
+ ],
+ "C15": [
+  "c15_accepted_roundtrip",
+  "c15_block_65535",
+  "c15_ctor_accepted",
+  "c15_ctor_rejected",
+  "c15_exact_or_undeclared",
+  "c15_grid_slice",
+  "c15_lpc_order_32",
+  "c15_overfill",
+  "c15_overfill_detected_at_finalize",
+  "c15_overfill_detected_at_write",
+  "c15_partition_order_15",
+  "c15_stream_writer_boundary_rate",
+  "c15_stream_writer_empty_frame",
+  "c15_underfill",
+  "empty_write",
+  "final_block_1",
+  "final_block_le_2order",
+  "write_ended_inside_pcm_frame"
+ ],
+ "C16": [
+  "c16_frame_dropped_by_transport",
+  "c16_frame_lost_to_lookalike_or_drop",
+  "c16_garbage_all_ff",
+  "c16_garbage_ff_only",
+  "c16_garbage_no_ff",
+  "c16_garbage_sync_lookalike",
+  "c16_garbage_truncated_real_header",
+  "c16_parameter_change_between_frames",
+  "c16_sync_split_across_refill"
+ ],
+ "C17": [
+  "c17_canonical_frame",
+  "c17_shortblock_excluded",
+  "catalogue_entry",
+  "dmg_double_flip",
+  "dmg_fixture_file",
+  "dmg_flip_with_checksums_repaired",
+  "dmg_zero_sector",
+  "empty_write",
+  "final_block_1",
+  "final_block_le_2order",
+  "flip_in_blocking_bit",
+  "flip_in_blocksize_code",
+  "flip_in_channel_code",
+  "flip_in_coded_number_or_ext",
+  "flip_in_coding_method",
+  "flip_in_crc16",
+  "flip_in_crc8",
+  "flip_in_depth_code",
+  "flip_in_lpc_precision_or_shift",
+  "flip_in_metadata",
+  "flip_in_partition_order",
+  "flip_in_rate_code",
+  "flip_in_reserved_bit",
+  "flip_in_rice_parameter",
+  "flip_in_subframe_body",
+  "flip_in_subframe_header",
+  "flip_in_sync",
+  "trunc_in_frame_footer",
+  "trunc_in_frame_header",
+  "trunc_in_metadata",
+  "trunc_in_subframe",
+  "trunc_on_frame_boundary",
+  "write_ended_inside_pcm_frame"
+ ],
+ "C19": [
+  "c16_parameter_change_between_frames",
+  "c19_constant_block",
+  "empty_write",
+  "final_block_1",
+  "final_block_le_2order",
+  "verbatim_fallback",
+  "write_ended_inside_pcm_frame"
+ ]
+}
+for _k, _v in EXPECT.items():
+    PLAN[_k]["expect_probes"] = _v
